@@ -17,7 +17,10 @@ PROP = "C14"
 LEAN_TARGETS = ["LoguruModel.Props.C14"]
 AUDIT_FILE = "LoguruModel/Audit/C14.lean"
 DRIVER = "C14"
-RULE = ("one case = one logging call on a real logger with a serialize=True handler (callable sink) and a twin "
+RULE = ("(histories: several records through ONE long-lived serialize=True handler – default / colorize False / True / "
+        "callable format – interleaved with logger.level(name, icon=/color=) updates of levels already used, custom levels "
+        "created on the way, patchers swapping record['level']; each record judged like a single case; non-trivial = the "
+        "record's level name was already used earlier in the history.)  one case = one logging call on a real logger with a serialize=True handler (callable sink) and a twin "
         "non-serialising handler with the same format: message over an adversarial alphabet (all C0 controls, quote, "
         "backslash, LF/CR, U+0085/U+2028/U+2029, astral, markup), extra built by bind/contextualize/patch/kwargs from "
         "nested lists/tuples/dicts of None/bool/int (huge)/float (nan, inf, extremes)/str/bytes/datetime/timedelta/"
@@ -429,13 +432,18 @@ def handler_pair(logger, fmt):
     return _PAIRS[fmt]
 
 
-def run_impl(c, colorize=None, sink_factory=None):
+def run_impl(c, colorize=None, sink_factory=None, pair=None):
     """execute the case on the real logger; returns dict(out=[Message], twin=[Message], err=Exception|None).
-    The serialize=True handler and its non-serialising twin (same format) see the same record."""
+    The serialize=True handler and its non-serialising twin (same format) see the same record.
+    `pair` = (token, out, twin): handlers of a history, already installed and routed by `token`."""
     logger = the_logger()
     fmt = c["format"][0]
     temp = []
-    if sink_factory is None:
+    if pair is not None:
+        token, out, twin = pair
+        del out[:], twin[:]
+        _ACTIVE[0] = token
+    elif sink_factory is None:
         out, twin = handler_pair(logger, fmt)
         del out[:], twin[:]
         _ACTIVE[0] = fmt
@@ -452,6 +460,9 @@ def run_impl(c, colorize=None, sink_factory=None):
         if p is not None:
             if p[0] == "extra":
                 lg = lg.patch(lambda r: r["extra"].__setitem__(p[1], p[2]))
+            elif p[0] == "level":
+                from loguru._recattrs import RecordLevel
+                lg = lg.patch(lambda r: r.__setitem__("level", RecordLevel(r["level"].name, p[1], p[2])))
             else:
                 lg = lg.patch(lambda r: r.__setitem__(p[0], p[1]))
         exc = make_exc(c["exc"])
@@ -476,6 +487,132 @@ def run_impl(c, colorize=None, sink_factory=None):
         for h in temp:
             logger.remove(h)
     return {"out": list(out), "twin": list(twin), "err": err}
+
+
+
+# ----------------------------------------------------------------------------- histories on one long-lived handler
+BUILTIN_LEVELS = ["TRACE", "DEBUG", "INFO", "SUCCESS", "WARNING", "ERROR", "CRITICAL"]
+LEVEL_COLORS = ["<red>", "<blue><bold>", "", "<yellow>", "<bg green><black>", "<light-cyan>", "<u>"]
+HANDLER_VARIANTS = [("default", {}), ("default", {}), ("colorize-false", {"colorize": False}),
+                    ("colorize-true", {"colorize": True}), ("dynamic", {}), ("dynamic", {})]
+
+
+def gen_history(seed):
+    """a sequence of operations on ONE serialize=True handler (+ its twin): records interleaved with
+    logger.level() updates (icon / color) of levels already used, custom levels created on the way, and
+    per-record bind / contextualize / patch (incl. a patcher swapping record["level"]) / exception.
+    Everything derives from the integer `seed`."""
+    rng = core.Rng(seed)
+    tag = "%06x" % (seed & 0xFFFFFF)
+    customs = ["HV%sa" % tag, "HV%sb" % tag]
+    focus = [rng.choice(BUILTIN_LEVELS), rng.choice(BUILTIN_LEVELS + customs), rng.choice(customs)]
+    variant = rng.choice(HANDLER_VARIANTS)
+    fmt = rng.choice([f for f in FORMATS if f[0]] + [("{level.icon}|{level.no}|{message}", "{level.icon}|{level.no}|{message}")] * 3)
+    steps = []
+    for _ in range(rng.range(5, 16)):
+        k = rng.below(10)
+        name = rng.choice(focus) if rng.chance(85) else rng.choice(BUILTIN_LEVELS)
+        if k < 6:
+            c = gen_case(rng.next())
+            c["format"] = fmt
+            c["level"] = name
+            if rng.chance(8):
+                c["patch"] = ("level", rng.choice([0, 5, 20, 33, 10**6]), gen_text(rng, 3))
+            steps.append(("log", c))
+        elif k < 8:
+            steps.append(("level", name, {"icon": gen_text(rng, 3) if rng.chance(70) else rng.choice(["@", "", " ", "\n"])}))
+        elif k == 8:
+            steps.append(("level", name, {"color": rng.choice(LEVEL_COLORS)}))
+        else:
+            steps.append(("level", name, {"icon": gen_text(rng, 2), "color": rng.choice(LEVEL_COLORS)}))
+    return {"seed": seed, "customs": customs, "variant": variant, "format": fmt, "steps": steps}
+
+
+def run_history(h, on_record):
+    """execute the history on the real logger; `on_record(index, case, result)` is called for every
+    record step with the result dict of run_impl.  Level changes to built-in levels are undone."""
+    logger = the_logger()
+    fmt = h["format"][0]
+    vname, vkw = h["variant"]
+    fmt_arg = (lambda record: fmt + "\n{exception}") if vname == "dynamic" else fmt
+    token = "<history %d>" % h["seed"]
+    out, twin = [], []
+    flt = lambda record: _ACTIVE[0] == token  # noqa: E731
+    saved = {n: logger.level(n) for n in BUILTIN_LEVELS}
+    ids = [logger.add(twin.append, format=fmt_arg, colorize=False, catch=False, level=0, backtrace=False, diagnose=False,
+                      filter=flt),
+           logger.add(out.append, format=fmt_arg, serialize=True, catch=False, level=0, backtrace=False, diagnose=False,
+                      filter=flt, **vkw)]
+    created = set()
+    try:
+        for i, st in enumerate(h["steps"]):
+            name = st[1]["level"] if st[0] == "log" else st[1]
+            if name in h["customs"] and name not in created:
+                try:
+                    logger.level(name)
+                except ValueError:
+                    logger.level(name, no=10 + 7 * h["customs"].index(name), icon="c" + str(h["customs"].index(name)))
+                created.add(name)
+            if st[0] == "level":
+                logger.level(name, **st[2])
+            else:
+                on_record(i, st[1], run_impl(st[1], pair=(token, out, twin)))
+    finally:
+        _ACTIVE[0] = None
+        for hid in ids:
+            logger.remove(hid)
+        for n, lv in saved.items():
+            if logger.level(n) != lv:
+                logger.level(n, color=lv.color, icon=lv.icon)
+
+
+def check_history(ctx, h, lines, pending):
+    explicit = h["variant"][1].get("colorize") is True
+    nlev = [0]
+    seen_levels = set()
+
+    def on_record(i, c, res):
+        rep = {"stream": "history", "history_seed": h["seed"], "step": i}
+        if len(res["twin"]) != 1:
+            raise RuntimeError("harness: twin handler got %d messages for %r" % (len(res["twin"]), rep))
+        record = res["twin"][0].record
+        text = None
+        if explicit:
+            try:
+                text = json.loads(str(res["out"][0]))["text"]
+            except Exception:  # noqa
+                text = None
+        try:
+            line = model_line(res, text) if (not explicit or text is not None) else None
+        except Outside:
+            ctx.stat("outside_quantifier")
+            return
+        # a record is non-trivial here when its level was used before in this history (possibly updated since)
+        ctx.case((h["seed"], i), nontrivial=(record["level"].name in seen_levels))
+        seen_levels.add(record["level"].name)
+        ctx.stat("stream:history")
+        ctx.stat("history:variant:" + h["variant"][0])
+        if res["err"] is not None:
+            ctx.stat("impl_err:" + canon_err(res["err"]))
+        for what, k in oracle(c, res, explicit_colour=explicit):
+            ctx.violation(what + "  [history seed %d, step %d, handler %s, level %r after %d level updates]"
+                          % (h["seed"], i, h["variant"][0], record["level"].name, nlev[0]),
+                          dict(rep, expected="property C14", observed=what), key=k)
+            break
+        if line is not None:
+            lines.append(line)
+            pending.append((rep, impl_result(res), c))
+
+    # count level updates as they pass (for the message only)
+    for st in h["steps"]:
+        if st[0] == "level":
+            ctx.stat("history:level-update:" + "+".join(sorted(st[2])))
+    orig = on_record
+
+    def counting(i, c, res):
+        nlev[0] = sum(1 for s2 in h["steps"][:i] if s2[0] == "level")
+        orig(i, c, res)
+    run_history(h, counting)
 
 
 def contains_bad(v):
@@ -749,12 +886,21 @@ def run(ctx):
         c = case_from_corpus(it)
         check_case(ctx, c, {"stream": "corpus", "file": it["_file"], "id": it.get("id"), "case": it}, lines, pending, "corpus")
 
+    for hp in sorted(glob.glob(os.path.join(core.VERIF, "corpus", PROP, "*.json"))):
+        with open(hp, encoding="utf8") as f:
+            for hs in json.load(f).get("histories", []):
+                check_history(ctx, gen_history(int(hs["history_seed"])), lines, pending)
+
     # ---- stream 1: logging calls on the real handler: direct oracle + model line
-    n1 = int(ctx.n(5000, 60000) * boost)
+    n1 = int(ctx.n(4000, 50000) * boost)
     for i in range(n1):
         seed = rng.next()
         c = gen_case(seed)
         check_case(ctx, c, {"stream": "record", "case_seed": seed}, lines, pending, "record")
+
+    # ---- stream 1h: HISTORIES on one long-lived serialize=True handler (level updates between records)
+    for i in range(int(ctx.n(130, 1500) * boost)):
+        check_history(ctx, gen_history(rng.next()), lines, pending)
 
     # ---- stream 1b: every code point of the low planes and the plane boundaries inside a message
     cps = list(range(0, 0x3000)) + [0xd7ff, 0xe000, 0xfffd, 0xfffe, 0xffff, 0x10000, 0x1fffe, 0x1ffff, 0x20000, 0xe0000,
@@ -906,9 +1052,38 @@ def show(res):
 
 
 # ----------------------------------------------------------------------------- replay
+def replay_history(r):
+    h = gen_history(r["history_seed"])
+    explicit = h["variant"][1].get("colorize") is True
+    print("history seed %d: handler variant %s, format %r" % (h["seed"], h["variant"][0], h["format"][0]))
+    found = []
+    state = {"i": 0}
+
+    def on_record(i, c, res):
+        for j in range(state["i"], i):
+            st = h["steps"][j]
+            if st[0] == "level":
+                print("  step %2d  logger.level(%r, %s)" % (j, st[1], ", ".join("%s=%r" % kv for kv in sorted(st[2].items()))))
+        state["i"] = i + 1
+        rec = res["twin"][0].record if res["twin"] else None
+        probs = oracle(c, res, explicit_colour=explicit)
+        print("  step %2d  log(%r, %r)%s -> record.level=%r" % (i, c["level"], c["message"][:30],
+              " patch=%r" % (c["patch"],) if c["patch"] else "", rec["level"] if rec else None))
+        if probs or i == r.get("step"):
+            print("           impl: %s" % (repr(str(res["out"][0]))[:400] if res["out"] else "nothing emitted, error %r" % (res["err"],)))
+        for what, _ in probs:
+            print("           ORACLE: " + what)
+            found.append((i, what))
+    run_history(h, on_record)
+    print("REPRODUCED" if found else "not reproduced")
+    return 1 if found else 0
+
+
 def replay(ctx, rep):
     r = rep["replay"]
     stream = r.get("stream")
+    if stream == "history":
+        return replay_history(r)
     if stream in ("record", "colour"):
         c = gen_case(r["case_seed"])
     elif stream == "corpus":
